@@ -34,7 +34,10 @@ func init() {
 	proc.Register("c02c-worker", func(a []string) int {
 		return par.Serve(a, func(i int, seed int64, extra []string) any {
 			if len(extra) > 0 && extra[0] == "directed" {
-				return roundDirected(i, seed)
+				return roundDirected(i, seed, false)
+			}
+			if len(extra) > 0 && extra[0] == "directed-local" {
+				return roundDirected(i, seed, true)
 			}
 			return roundClustered(i, seed, extra)
 		})
@@ -72,100 +75,126 @@ func (c cnodeCfg) db() sopx.DB {
 	return sopx.DB{Dir: c.Dir, Opts: sop.DatabaseOptions{StoresFolders: []string{c.Dir}, CacheType: sop.Redis, RedisConfig: resp.Config(c.Redis)}}
 }
 
+// nodeState is one participant (an OS process in clustered mode, a plain object in the in-process
+// directed half): a database handle plus its open step-driven transactions.
+type nodeState struct {
+	db    sopx.DB
+	clock *conc.Clock
+	open  map[string]*live
+}
+
+func newNodeState(db sopx.DB) *nodeState {
+	return &nodeState{db: db, clock: &conc.Clock{}, open: map[string]*live{}}
+}
+
+func (n *nodeState) handle(m ccmd) creply {
+	db := n.db
+	switch m.Cmd {
+	case "seed":
+		prog := txn.Program{Create: []txn.Spec{{Name: "s", Slot: m.Slot, Profile: sopx.Profile(m.Profile)}}}
+		for _, kv := range m.Init {
+			prog.Ops = append(prog.Ops, txn.Op{Store: "s", Kind: "add", K: kv.K, V: kv.V})
+		}
+		if err := txn.Commit(txn.Public{DB: db}, prog, time.Minute); err != nil {
+			return creply{Err: err.Error()}
+		}
+		return creply{OK: true}
+	case "tbegin":
+		n.open[m.Plan.ID] = beginLive(db, *m.Plan)
+		return creply{OK: true}
+	case "tstep":
+		if l := n.open[m.ID]; l != nil && m.Step != nil {
+			l.step(*m.Step)
+		}
+		return creply{OK: true}
+	case "tfinish":
+		l := n.open[m.ID]
+		if l == nil {
+			return creply{Err: "no such transaction"}
+		}
+		delete(n.open, m.ID)
+		return creply{OK: true, Txns: []T{l.finish(n.clock, m.Abort)}}
+	case "run":
+		g := m.G
+		if g < 1 {
+			g = 1
+		}
+		res := make([][]T, g)
+		var wg sync.WaitGroup
+		for i := 0; i < g; i++ {
+			wg.Add(1)
+			go func(i int) {
+				defer wg.Done()
+				for j := i; j < len(m.Txns); j += g {
+					res[i] = append(res[i], execTxn(db, n.clock, m.Txns[j]))
+				}
+			}(i)
+		}
+		wg.Wait()
+		var all []T
+		for _, r := range res {
+			all = append(all, r...)
+		}
+		return creply{OK: true, Txns: all}
+	case "dump":
+		d := sopx.DumpDB(db)
+		if d.Err != "" || d.By["s"].Err != "" {
+			return creply{Err: "final dump unreadable: " + d.Err + d.By["s"].Err}
+		}
+		fin := map[string]string{}
+		dup := ""
+		for _, kv := range d.By["s"].Items {
+			if _, ok := fin[kv.K]; ok {
+				dup = kv.K
+			}
+			fin[kv.K] = kv.V
+		}
+		return creply{OK: true, Final: fin, Dup: dup}
+	}
+	return creply{Err: "unknown command " + m.Cmd}
+}
+
 func nodeClustered(args []string) int {
 	var c cnodeCfg
 	if json.Unmarshal([]byte(args[0]), &c) != nil {
 		return proc.ExitHarness
 	}
 	sop.RetryStartDuration = time.Millisecond
-	db := c.db()
+	st := newNodeState(c.db())
 	in := bufio.NewScanner(os.Stdin)
 	in.Buffer(make([]byte, 1<<20), 1<<24)
 	out := bufio.NewWriter(os.Stdout)
-	say := func(r creply) {
+	for in.Scan() {
+		var m ccmd
+		r := creply{Err: "bad command"}
+		if json.Unmarshal(in.Bytes(), &m) == nil {
+			if m.Cmd == "quit" {
+				return 0
+			}
+			r = st.handle(m)
+		}
 		b, _ := json.Marshal(r)
 		out.Write(b)
 		out.WriteByte('\n')
 		out.Flush()
 	}
-	clock := &conc.Clock{}
-	open := map[string]*live{}
-	for in.Scan() {
-		var m ccmd
-		if json.Unmarshal(in.Bytes(), &m) != nil {
-			say(creply{Err: "bad command"})
-			continue
-		}
-		switch m.Cmd {
-		case "quit":
-			return 0
-		case "seed":
-			prog := txn.Program{Create: []txn.Spec{{Name: "s", Slot: m.Slot, Profile: sopx.Profile(m.Profile)}}}
-			for _, kv := range m.Init {
-				prog.Ops = append(prog.Ops, txn.Op{Store: "s", Kind: "add", K: kv.K, V: kv.V})
-			}
-			if err := txn.Commit(txn.Public{DB: db}, prog, time.Minute); err != nil {
-				say(creply{Err: err.Error()})
-			} else {
-				say(creply{OK: true})
-			}
-		case "tbegin":
-			open[m.Plan.ID] = beginLive(db, *m.Plan)
-			say(creply{OK: true})
-		case "tstep":
-			if l := open[m.ID]; l != nil && m.Step != nil {
-				l.step(*m.Step)
-			}
-			say(creply{OK: true})
-		case "tfinish":
-			l := open[m.ID]
-			if l == nil {
-				say(creply{Err: "no such transaction"})
-				continue
-			}
-			delete(open, m.ID)
-			say(creply{OK: true, Txns: []T{l.finish(clock, m.Abort)}})
-		case "run":
-			g := m.G
-			if g < 1 {
-				g = 1
-			}
-			res := make([][]T, g)
-			var wg sync.WaitGroup
-			for i := 0; i < g; i++ {
-				wg.Add(1)
-				go func(i int) {
-					defer wg.Done()
-					for j := i; j < len(m.Txns); j += g {
-						res[i] = append(res[i], execTxn(db, clock, m.Txns[j]))
-					}
-				}(i)
-			}
-			wg.Wait()
-			var all []T
-			for _, r := range res {
-				all = append(all, r...)
-			}
-			say(creply{OK: true, Txns: all})
-		case "dump":
-			d := sopx.DumpDB(db)
-			if d.Err != "" || d.By["s"].Err != "" {
-				say(creply{Err: "final dump unreadable: " + d.Err + d.By["s"].Err})
-				continue
-			}
-			fin := map[string]string{}
-			dup := ""
-			for _, kv := range d.By["s"].Items {
-				if _, ok := fin[kv.K]; ok {
-					dup = kv.K
-				}
-				fin[kv.K] = kv.V
-			}
-			say(creply{OK: true, Final: fin, Dup: dup})
-		}
-	}
 	return 0
 }
+
+// peer is what a round talks to: a child process (clustered) or an in-process participant.
+type peer interface {
+	do(m ccmd, wait time.Duration) creply
+	crashOf() string
+	stop()
+}
+
+// localPeer runs the commands in this process (standalone in-memory L2, shared L1): the in-process
+// half of the directed interleavings.
+type localPeer struct{ st *nodeState }
+
+func (l *localPeer) do(m ccmd, _ time.Duration) creply { return l.st.handle(m) }
+func (l *localPeer) crashOf() string                  { return "" }
+func (l *localPeer) stop()                            {}
 
 type cchild struct {
 	cmd    *exec.Cmd
@@ -457,18 +486,27 @@ func roundClustered(i int, seed int64, extra []string) any {
 // the one chosen - no timing involved). Before it, every process runs a warm-up transaction (reads every
 // register, writes one) so its L1 cache holds nodes and handles that the other processes' commits then
 // outdate; after it, every process runs a read-only transaction over several registers.
-func roundDirected(i int, seed int64) any {
-	rnd := env.Rand(seed, fmt.Sprintf("c02d-%d", i))
+func roundDirected(i int, seed int64, local bool) any {
+	rnd := env.Rand(seed, fmt.Sprintf("c02d-%d-%v", i, local))
 	res := RoundRes{}
 	dir := env.Scratch("c02d")
 	defer env.Remove(dir)
-	srv, err := resp.Start()
-	if err != nil {
-		res.Harness = "resp stub: " + err.Error()
-		return res
+	var cfg cnodeCfg
+	if !local {
+		srv, err := resp.Start()
+		if err != nil {
+			res.Harness = "resp stub: " + err.Error()
+			return res
+		}
+		defer srv.Close()
+		cfg = cnodeCfg{Dir: dir, Redis: srv.Addr()}
 	}
-	defer srv.Close()
-	cfg := cnodeCfg{Dir: dir, Redis: srv.Addr()}
+	newPeer := func() (peer, error) {
+		if local {
+			return &localPeer{st: newNodeState(sopx.NewDB(dir))}, nil
+		}
+		return startCNode(cfg)
+	}
 	res.Slot = []int{2, 2, 4, 4, 8}[rnd.Intn(5)]
 	prof := []sopx.Profile{sopx.InNode, sopx.InNode, sopx.Separate, sopx.SepCached, sopx.SepActive}[rnd.Intn(5)]
 	res.Profile = string(prof)
@@ -489,9 +527,9 @@ func roundDirected(i int, seed int64) any {
 	res.Init = init
 	P := 2 + rnd.Intn(2)
 	res.Procs = P
-	var nodes []*cchild
+	var nodes []peer
 	for p := 0; p < P; p++ {
-		c, err := startCNode(cfg)
+		c, err := newPeer()
 		if err != nil {
 			res.Harness = "node start: " + err.Error()
 			return res
@@ -592,7 +630,7 @@ func roundDirected(i int, seed int64) any {
 			}
 		}
 	}
-	fresh, err := startCNode(cfg)
+	fresh, err := newPeer()
 	if err != nil {
 		res.Harness = "fresh node: " + err.Error()
 		return res
